@@ -1,5 +1,6 @@
-"""C10 — status codes and queries tell the truth about decoding progress (Reed-Solomon codecs; LDPC not reached)."""
+"""C10 — status codes and queries tell the truth about decoding progress (Reed-Solomon: inductive API-layer contracts; LDPC-Staircase: BOUNDED session contract)."""
 from ofvlib.core import Job
+from checks import lbc
 
 API = "src/lib_common/of_openfec_api.c"
 SRCS = [API, "src/lib_common/of_mem.c", "src/lib_stable/reed-solomon_gf_2_8/of_reed-solomon_gf_2_8_api.c",
@@ -17,7 +18,7 @@ INFO = {
     "explanation": "inductive step contracts of the Reed-Solomon API layer from an arbitrary state satisfying the representation invariant; one run per "
                    "(codec, function, k, n-k, length); received set, contents, ESI, role, callback behaviour symbolic; codec core replaced by a "
                    "precondition-checking contract stub",
-    "assumptions": ["LDPC-Staircase part of the property is NOT decided (IT/ML engines are outside the reach of contracts here; DESIGN.md section 6)",
+    "assumptions": ["LDPC-Staircase part: BOUNDED session contract on small codes (status of every call, completion <=> all k sources, never reverts, pointer identity for sources submitted while unknown, finish OK <=> complete afterwards)",
                     "of_rs_decode / of_rs_2m_decode return OF_STATUS_OK and the source symbols whenever called within their precondition (that contract is C02's)",
                     "after set_available_symbols, of_is_decoding_complete stays false until of_finish_decoding even if all k sources were supplied (documented usage: finish must be called)"],
     "trusted": [],
@@ -40,5 +41,14 @@ def api_jobs(tier, fns=(1, 2, 3, 4), group_prefix="rs_api"):
     return js
 
 
+def ldpc_jobs(tier, seed, prop="C10", pfx="c10"):
+    ld = lbc.c03_jobs(tier, seed, prop=prop, prefix=pfx + "ml", group_prefix="lbc_status_finish") + lbc.c04_jobs(tier, seed, prop=prop, prefix=pfx + "it", group_prefix="lbc_status_stream")
+    if tier == "quick":   # a slice here; the whole families run under C03 / C04
+        ld = [j for i, j in enumerate(ld) if i % 3 == 0]
+    else:
+        ld = [j for i, j in enumerate(ld) if i % 3 == 1]
+    return ld
+
+
 def jobs(tier, seed):
-    return api_jobs(tier)
+    return api_jobs(tier) + ldpc_jobs(tier, seed)
